@@ -12,6 +12,16 @@
 //!                          harness waits for quiescence                      -> state line
 //!   burst <id,id,..>       BURST: all deliveries at once from 1-3 threads, then a fence (genesis
 //!                          delivered synchronously), then quiescence           -> td=<n>
+//!   expire                 the orphan-expiry timer fires (hook)                -> state line ++ pool=<ids>
+//!   crash                  the chain services are stopped (at quiescence) and every handle is dropped; the
+//!                          database is reopened without services: the PERSISTED state (orph=0, inv=-) ->
+//!                          state line. The node stays stopped until `restart`.
+//!   burststop <ids> <obs>  all ids handed over from one thread without waiting, then the node is stopped at
+//!                          once (verify queue non-empty); <obs> = the persisted state observed, spaces
+//!                          written as `|` (the model matches the number of completed verifications) -> state line
+//!   restart <mel> <order>  (stop if running,) start the node on the same directory, wait for
+//!                          InitLoadUnverified and for an empty pending set; mel = max_epoch_length,
+//!                          order = ids by (number, hash) as NUMBER_HASH iterates            -> state line
 //! state line: cb=<id>:<new|known|err|drop>,.. tip=<id> td=<n> orph=<k> stored=<ids> ext=<id>:<td>,..
 //!             ver=<ids> inv=<ids>
 //! hint = ids whose callbacks fired during the op, in firing order, without the delivered id (the
@@ -22,9 +32,10 @@
 use crate::common::*;
 use crate::node::*;
 use ckb_chain::{LonelyBlock, VerifyResult};
-use ckb_db_schema::COLUMN_BLOCK_HEADER;
+use ckb_db::RocksDB;
+use ckb_db_schema::{COLUMNS, COLUMN_BLOCK_HEADER};
 use ckb_shared::block_status::BlockStatus;
-use ckb_store::ChainStore;
+use ckb_store::{ChainDB, ChainStore};
 use ckb_chain_spec::consensus::{build_genesis_epoch_ext, Consensus, ConsensusBuilder, ProposalWindow};
 use ckb_dao_utils::genesis_dao_data;
 use ckb_test_chain_utils::{always_success_cell, create_always_success_tx};
@@ -405,6 +416,19 @@ struct CaseRun {
     /// ids that were in the orphan pool after some `expire` op of this case and are still there
     survivors: HashSet<usize>,
     had_multi: bool,
+    /// what a restart needs
+    consensus: Consensus,
+    cfg: NodeCfg,
+    /// ids in the orphan pool WITHOUT a harness callback: re-submitted by `InitLoadUnverified` after a
+    /// restart (its deliveries carry no callback). Always a subset of the pool.
+    foreign: HashSet<usize>,
+    /// number of `restart` ops of this case so far
+    restarts: usize,
+    /// `arrival.len()` at each restart (fingerprint)
+    restart_marks: Vec<usize>,
+    /// some stop found: the verify queue non-empty / the pool non-empty / a stored-unverified block
+    /// more than EXPIRED_EPOCH numbers below the tip (statistics; the last one is what seed m3 needs)
+    had_deep_unverified: bool,
 }
 
 impl CaseRun {
@@ -444,6 +468,12 @@ impl CaseRun {
             last_ext: HashSet::from([0]),
             survivors: HashSet::new(),
             had_multi: false,
+            consensus: consensus.clone(),
+            cfg: cfg.clone(),
+            foreign: HashSet::new(),
+            restarts: 0,
+            restart_marks: vec![],
+            had_deep_unverified: false,
         }
     }
 
@@ -456,7 +486,12 @@ impl CaseRun {
     }
 
     fn node(&self) -> &Node {
-        self.node.as_ref().unwrap()
+        self.node.as_ref().expect("malformed op sequence: the node is stopped (a `crash` / `burststop` must be followed by `restart`)")
+    }
+
+    fn in_pool(&self, id: usize) -> bool {
+        let node = self.node();
+        node.controller().get_orphan_block(node.store(), &self.get(id).hash).is_some()
     }
 
     fn get(&self, id: usize) -> &Blk {
@@ -497,6 +532,13 @@ impl CaseRun {
     /// (one per pooled hash) or by one of the two queues / the verify thread. So
     /// `handed - fired - dropped == orphan_blocks_len()` iff the queues are empty and the verify
     /// thread has finished (callbacks fire after commit, snapshot publication and pending removal).
+    /// After a restart the blocks `InitLoadUnverified` re-submitted carry NO callback (`foreign` pool
+    /// entries are subtracted from the pool size) and their verification is invisible to the callback
+    /// count: in addition the node's `is_pending_verify` set must be empty (hook
+    /// `ChainController::verif_pending_len`; a hash leaves the set after its ext / BLOCK_INVALID mark is
+    /// published). A foreign queue entry is never behind a queued duplicate of itself that carries a
+    /// callback (a harness re-delivery of a pooled foreign block REPLACES the pool entry), so "pending
+    /// set empty and callbacks balanced" implies both queues are empty.
     fn wait_quiescent(&self) -> Result<(), String> {
         let start = Instant::now();
         let mut step = Duration::from_micros(200);
@@ -512,19 +554,22 @@ impl CaseRun {
             };
             let outstanding = self.handed - fired - dropped;
             let pool = self.node().controller().orphan_blocks_len();
-            if outstanding == pool {
+            let foreign = if self.foreign.is_empty() { 0 } else { self.foreign.iter().filter(|i| self.in_pool(**i)).count() };
+            if outstanding + foreign == pool && self.node().controller().verif_pending_len() == Some(0) {
                 return Ok(());
             }
             if start.elapsed() > quiescence_timeout() {
                 let l = self.log.lock().unwrap();
                 let tail: Vec<String> = l.events.iter().rev().take(12).rev().map(|(i, v)| format!("{}:{}", i, v.as_str())).collect();
                 return Err(format!(
-                    "no quiescence after {}s: handed={} fired={} dropped={} orphan_pool={} last_callbacks={}",
+                    "no quiescence after {}s: handed={} fired={} dropped={} orphan_pool={} of which without callback={} pending_verify={:?} last_callbacks={}",
                     quiescence_timeout().as_secs(),
                     self.handed,
                     l.fired,
                     l.dropped,
                     self.node().controller().orphan_blocks_len(),
+                    foreign,
+                    self.node().controller().verif_pending_len(),
                     tail.join(",")
                 ));
             }
@@ -614,8 +659,41 @@ impl CaseRun {
         }
     }
 
+    /// The property, evaluated on the implementation's outputs only (no model involved).
+    ///
+    /// `self.delivered` is the set of blocks RECEIVED in the sense of the property. Without a restart it
+    /// is the set of ids handed to the chain service (minus orphans removed by a legitimate expiry).
+    /// Across a stop + start of the node on the same directory (`restart`) it is recomputed from the
+    /// database as it was found after the stop, by the rule the property promises for a node that was
+    /// stopped in the middle of a delivery:
+    ///   * a block that has a BlockExt row counts (it needs no re-submission);
+    ///   * a block whose data is STORED (`insert_block` committed before the stop: COLUMN_BLOCK_HEADER row)
+    ///     without BlockExt — queued for verification or held in the orphan pool when the node stopped —
+    ///     counts iff it lies inside the start-up scan horizon of `InitLoadUnverified`: its number is in
+    ///     [max(1, tip − EXPIRED_EPOCH·max_epoch_length), tip + 10·BLOCK_DOWNLOAD_WINDOW] and, when above
+    ///     the tip, every number between the tip and it has some stored block without ext (the scan stops
+    ///     at the first number above the tip without candidate). The node must pick these up again BY
+    ///     ITSELF (`restart-not-requeued` otherwise), nobody re-delivers them;
+    ///   * everything else the node was given before the stop does NOT count any more and needs
+    ///     re-delivery: blocks that were never stored (still in the request channel — cannot happen with
+    ///     a clean stop, which drains it —, rejected, deleted after a failed verification or an expiry),
+    ///     stored blocks outside the horizon (older than six maximal epochs, or above a number gap over
+    ///     the tip: forgotten by design, counted as `restart-forgot-outside-horizon`). The in-memory
+    ///     orphan pool, both queues, `is_pending_verify` and the BLOCK_INVALID marks are volatile: they
+    ///     are gone after the stop, whether it was clean or not (a clean stop flushes none of them).
+    /// The constants are read from the real crates (`VERIF_ORPHAN_EXPIRED_EPOCH`,
+    /// `Consensus::max_epoch_length()`, `BLOCK_DOWNLOAD_WINDOW`), the horizon expression is this oracle's
+    /// own (it is the specification the seeded change m3 violates).
+    /// Clauses: validity of the tip, true total difficulty, maximality over all fully valid chains
+    /// formable from the received set (at quiescence only: `maximal`), strictness (serialised ops only)
+    /// and monotonicity over the whole tip history of the case — which continues across restarts.
+    ///
     /// returns (old tip, new tip, reorg) when the tip changed
     fn oracle(&mut self, out: &mut Out, v: &StateView, serialised: bool, what: &str) -> Option<(usize, usize, bool)> {
+        self.oracle_opt(out, v, serialised, true, what)
+    }
+
+    fn oracle_opt(&mut self, out: &mut Out, v: &StateView, serialised: bool, maximal: bool, what: &str) -> Option<(usize, usize, bool)> {
         let mut moved = None;
         let valid_ids: Vec<usize> = self.blks.iter().map(|b| b.id).filter(|i| self.valid(*i)).collect();
         let m = valid_ids.iter().map(|i| self.total_work(*i)).max().unwrap();
@@ -682,7 +760,7 @@ impl CaseRun {
                 self.prev = Some((tip, v.td));
             }
         }
-        if v.td < m {
+        if maximal && v.td < m {
             out.oracle_fail("not-maximal", &format!("{what}: quiescent with td={} but a delivered fully valid block has total work {m}", v.td));
         }
         for id in &v.ver {
@@ -705,7 +783,9 @@ impl CaseRun {
     /// (a second queued copy of a block whose first copy failed and was deleted)
     fn failed_block_delivered_twice(&self) -> bool {
         let mut seen = HashSet::new();
-        for id in &self.arrival {
+        // only the deliveries since the last restart: a restart empties the queues
+        let from = self.restart_marks.last().copied().unwrap_or(0);
+        for id in &self.arrival[from..] {
             if !seen.insert(*id) {
                 let mut b = self.get(*id);
                 loop {
@@ -753,6 +833,9 @@ impl CaseRun {
         }
         let lb = self.lonely(id);
         self.arrival.push(id);
+        // a pooled block without callback that is delivered again: the pool entry is replaced by this
+        // copy (which carries a callback) — it stops being `foreign` before the quiescence probe runs
+        let was_foreign = self.foreign.remove(&id);
         let alive = self.node().controller().verif_process_lonely_block_sync(lb);
         if id != 0 {
             self.delivered.insert(id);
@@ -763,8 +846,9 @@ impl CaseRun {
         if let Err(e) = self.wait_quiescent() {
             return self.hang(out, &format!("deliver {id} -"), &e);
         }
-        let events: Vec<(usize, Verdict)> = self.log.lock().unwrap().events[first..].to_vec();
-        let hint: Vec<usize> = events.iter().filter(|(i, v)| *v != Verdict::Drop && *i != id).map(|(i, _)| *i).collect();
+        let mut events: Vec<(usize, Verdict)> = self.log.lock().unwrap().events[first..].to_vec();
+        let mut hint: Vec<usize> = events.iter().filter(|(i, v)| *v != Verdict::Drop && *i != id).map(|(i, _)| *i).collect();
+        self.foreign_events(id, was_foreign, &mut events, &mut hint);
         let mut cbs = events.clone();
         cbs.sort();
         for (_, v) in &cbs {
@@ -794,6 +878,40 @@ impl CaseRun {
         }
     }
 
+    /// Canonicalisation of callbacks after a restart. `InitLoadUnverified` submits blocks WITHOUT
+    /// callback, the model gives every delivery a notional one. For a `foreign` pool entry the harness
+    /// synthesises the verdict the model reports from the observable outcome: `drop` when the block is
+    /// delivered again while pooled (the pool entry is replaced, the new one carries a callback), `new`
+    /// when it left the pool and has an ext, `err` when it left the pool and its data is deleted.
+    /// (`known` is impossible: a pooled block has no ext.) Synthesised ids are appended to the hint in
+    /// ascending order; the generator of family `restart` never has two siblings pooled together, so
+    /// the release order of foreign entries is determined by the tree.
+    fn foreign_events(&mut self, delivered_id: usize, was_foreign: bool, events: &mut Vec<(usize, Verdict)>, hint: &mut Vec<usize>) {
+        if was_foreign && self.in_pool(delivered_id) {
+            events.push((delivered_id, Verdict::Drop));
+        }
+        if self.foreign.is_empty() {
+            return;
+        }
+        let mut f: Vec<usize> = self.foreign.iter().copied().collect();
+        f.sort();
+        for x in f {
+            if self.in_pool(x) {
+                continue;
+            }
+            let hash = self.get(x).hash.clone();
+            let node = self.node();
+            if node.store().get_block_ext(&hash).is_some() {
+                events.push((x, Verdict::New));
+                hint.push(x);
+            } else if node.store().get(COLUMN_BLOCK_HEADER, hash.as_slice()).is_none() {
+                events.push((x, Verdict::Err));
+                hint.push(x);
+            }
+            self.foreign.remove(&x);
+        }
+    }
+
     /// `expire`: the chain-service thread runs the real `clean_expired_orphans` (hook: on demand
     /// instead of the 60 s ticker), fenced by a synchronous genesis delivery.
     fn expire(&mut self, out: &mut Out) {
@@ -818,9 +936,14 @@ impl CaseRun {
             return self.hang(out, "expire", &e);
         }
         let mut cbs: Vec<(usize, Verdict)> = self.log.lock().unwrap().events[first..].to_vec();
+        let pool1 = self.pool_ids();
+        // pool entries without callback (re-submitted by the start-up scan) that the expiry removed
+        for x in pool0.iter().filter(|x| self.foreign.contains(x) && !pool1.contains(x)).copied().collect::<Vec<_>>() {
+            cbs.push((x, Verdict::Drop));
+            self.foreign.remove(&x);
+        }
         cbs.sort();
         let v = self.read_state(out);
-        let pool1 = self.pool_ids();
         out.op("expire", &format!("{} pool={}", state_line(&cbs, &v), show_ids(&pool1)));
         // ---- oracle of the retention rule, on the real blocks' epochs
         let horizon = ckb_chain::VERIF_ORPHAN_EXPIRED_EPOCH;
@@ -904,6 +1027,11 @@ impl CaseRun {
             let g = self.get(0).work;
             self.prev = Some((0, g));
         }
+        // a pooled block without callback that this burst delivers again is either replaced by the
+        // copy carrying a callback or has left the pool by then: it stops being `foreign` either way
+        for id in ids {
+            self.foreign.remove(id);
+        }
         let k = self.threads;
         let mut chunks: Vec<Vec<LonelyBlock>> = (0..k).map(|_| vec![]).collect();
         for (i, id) in ids.iter().enumerate() {
@@ -942,6 +1070,305 @@ impl CaseRun {
         let v = self.read_state(out);
         out.op(&op, &format!("td={}", v.td));
         let _ = self.oracle(out, &v, false, &op);
+        if !self.foreign.is_empty() {
+            let pool: HashSet<usize> = self.pool_ids().into_iter().collect();
+            self.foreign.retain(|x| pool.contains(x));
+        }
+    }
+
+    // ---- stop / restart ------------------------------------------------------------------------
+
+    /// the persisted state of the stopped node's database, opened without services
+    fn persisted_view(&self, out: &mut Out) -> StateView {
+        assert!(self.node.is_none());
+        let db = ChainDB::new(RocksDB::open_in(self.dir.join("db"), COLUMNS), Default::default());
+        let tip_hash = db.get_tip_header().expect("stopped database has a tip").hash();
+        let tip = self.by_hash.get(&tip_hash).map(|i| self.blks[*i].id);
+        let td = db.get_block_ext(&tip_hash).map(|e| u256_u128(&e.total_difficulty)).unwrap_or(0);
+        let mut ids: Vec<usize> = self.blks.iter().map(|b| b.id).collect();
+        ids.sort();
+        let mut v = StateView { tip, td, orph: 0, stored: vec![], ext: vec![], ver: vec![], inv: vec![] };
+        for id in ids {
+            let b = self.get(id);
+            if db.get(COLUMN_BLOCK_HEADER, b.hash.as_slice()).is_some() {
+                v.stored.push(id);
+            }
+            if let Some(ext) = db.get_block_ext(&b.hash) {
+                v.ext.push((id, u256_u128(&ext.total_difficulty)));
+                match ext.verified {
+                    Some(true) => v.ver.push(id),
+                    Some(false) => out.oracle_fail("ext-false", &format!("block {id} has a persisted ext with verified == Some(false)")),
+                    None => {}
+                }
+            }
+        }
+        drop(db);
+        v
+    }
+
+    /// Stops the chain services (clean stop: the chain-service thread drains its request channel, then
+    /// the preload and the verify thread are told to stop and abandon whatever is still queued) and
+    /// drops every handle, so that the RocksDB lock is released. Afterwards every callback the harness
+    /// ever handed over has fired or has been dropped.
+    fn stop_node(&mut self, out: &mut Out, what: &str) -> bool {
+        let node = self.node.take().expect("malformed op sequence: the node is already stopped");
+        node.stop();
+        let (fired, dropped) = {
+            let l = self.log.lock().unwrap();
+            (l.fired, l.dropped)
+        };
+        if self.handed != fired + dropped {
+            // some thread of the stopped node still holds a callback: it did not terminate
+            self.hang(out, what, &format!("after the stop {} callbacks are neither fired nor dropped: a node thread did not terminate", self.handed - fired - dropped));
+            return false;
+        }
+        self.foreign.clear();
+        true
+    }
+
+    /// statistics about what a stop left behind (`pool0`: ids pooled just before the stop)
+    fn stop_stats(&mut self, out: &mut Out, pv: &StateView, pool0: &[usize]) {
+        let ext: HashSet<usize> = pv.ext.iter().map(|(i, _)| *i).collect();
+        let unext: Vec<usize> = pv.stored.iter().copied().filter(|i| *i != 0 && !ext.contains(i)).collect();
+        let tipn = pv.tip.map(|t| self.get(t).num).unwrap_or(0);
+        let tipe = pv.tip.map(|t| self.get(t).epoch).unwrap_or(0);
+        if !unext.is_empty() {
+            out.count("stop-with-stored-unverified");
+        }
+        if !pool0.is_empty() {
+            out.count("stop-with-orphan-pool-nonempty");
+        }
+        if unext.iter().any(|i| !pool0.contains(i)) {
+            out.count("stop-with-verify-queue-nonempty");
+        }
+        if unext.iter().any(|i| self.get(*i).num + ckb_chain::VERIF_ORPHAN_EXPIRED_EPOCH < tipn) {
+            out.count("stop-with-stored-unverified-more-than-6-numbers-below-tip");
+            self.had_deep_unverified = true;
+        }
+        if unext.iter().any(|i| self.get(*i).epoch + 1 < tipe) {
+            out.count("stop-with-stored-unverified-more-than-one-epoch-below-tip");
+        }
+        if unext.iter().any(|i| self.get(*i).num > tipn) {
+            out.count("stop-with-stored-unverified-above-tip");
+        }
+        // a stored-unverified block on a branch that is heavier than the persisted tip's chain
+        if unext.iter().any(|i| self.valid(*i) && self.total_work(*i) > pv.td) {
+            out.count("stop-with-heavier-branch-unverified");
+        }
+    }
+
+    /// `crash`: stop the node (at quiescence in serialised histories); the persisted state is
+    /// compared with the model's `crash` (volatile state dropped). The node stays stopped.
+    fn stop(&mut self, out: &mut Out) {
+        if self.dead {
+            return;
+        }
+        out.count("stop-op");
+        if self.prev.is_none() {
+            let g = self.get(0).work;
+            self.prev = Some((0, g));
+        }
+        let pool0 = self.pool_ids();
+        if !self.stop_node(out, "crash") {
+            return;
+        }
+        let pv = self.persisted_view(out);
+        self.stop_stats(out, &pv, &pool0);
+        out.op("crash", &state_line(&[], &pv));
+        // the stop happened at quiescence: the persisted tip must already be maximal
+        let _ = self.oracle_opt(out, &pv, false, true, "crash");
+    }
+
+    /// `burststop <ids>`: every id handed to the chain service from ONE thread without waiting for
+    /// anything, then the node is stopped at once: all of them are inserted (the clean stop drains the
+    /// request channel), an arbitrary prefix of the verify queue has been verified. The observed
+    /// persisted state is part of the op line (spaces written as `|`): the model answers with the
+    /// persisted state after that many verify steps whose state equals it (else with zero steps).
+    fn burst_stop(&mut self, out: &mut Out, ids: &[usize]) {
+        if self.dead {
+            return;
+        }
+        out.count("burststop-op");
+        for id in ids {
+            let parent = self.get(*id).parent;
+            out.count("deliver");
+            if self.delivered.contains(id) {
+                out.count("deliver-dup");
+            }
+            if *id != 0 && parent != 0 && !self.delivered.contains(&parent) {
+                out.count("deliver-orphan");
+            }
+            if *id != 0 {
+                self.delivered.insert(*id);
+            }
+            self.arrival.push(*id);
+            self.foreign.remove(id);
+        }
+        if self.prev.is_none() {
+            let g = self.get(0).work;
+            self.prev = Some((0, g));
+        }
+        let pool0 = self.pool_ids();
+        let lbs: Vec<LonelyBlock> = ids.iter().map(|id| self.lonely(*id)).collect();
+        for lb in lbs {
+            self.node().controller().asynchronous_process_lonely_block(lb);
+        }
+        let what = format!("burststop {}", show_ids(ids));
+        if let Some(p) = node_panic() {
+            return self.hang(out, &what, &format!("a node thread died: {p}"));
+        }
+        if !self.stop_node(out, &what) {
+            return;
+        }
+        if let Some(p) = node_panic() {
+            return self.hang(out, &what, &format!("a node thread died: {p}"));
+        }
+        let pv = self.persisted_view(out);
+        // pooled before the burst or orphan in the burst: approximated by "no ext and parent without ext"
+        let mut pooled = pool0.clone();
+        let ext: HashSet<usize> = pv.ext.iter().map(|(i, _)| *i).collect();
+        for id in ids {
+            if !ext.contains(id) && !ext.contains(&self.get(*id).parent) && !self.connected_stored(*id, &pv) {
+                pooled.push(*id);
+            }
+        }
+        self.stop_stats(out, &pv, &pooled);
+        let line = state_line(&[], &pv);
+        out.op(&format!("{what} {}", line.replace(' ', "|")), &line);
+        let _ = self.oracle_opt(out, &pv, false, false, &what);
+    }
+
+    /// stored and connected to a block with an ext through stored blocks (i.e. not an orphan)
+    fn connected_stored(&self, id: usize, pv: &StateView) -> bool {
+        let ext: HashSet<usize> = pv.ext.iter().map(|(i, _)| *i).collect();
+        let mut b = self.get(id);
+        loop {
+            if b.id == 0 || ext.contains(&b.id) {
+                return true;
+            }
+            if !pv.stored.contains(&b.id) {
+                return false;
+            }
+            b = self.get(b.parent);
+        }
+    }
+
+    /// how the NUMBER_HASH column iterates: (number, hash bytes)
+    fn scan_order(&self) -> Vec<usize> {
+        let mut v: Vec<usize> = self.blks.iter().map(|b| b.id).filter(|i| *i != 0).collect();
+        v.sort_by(|a, b| (self.get(*a).num, self.get(*a).hash.as_slice().to_vec()).cmp(&(self.get(*b).num, self.get(*b).hash.as_slice().to_vec())));
+        v
+    }
+
+    /// `restart`: (stop the node if it is still running,) start it again on the same directory, wait
+    /// until `InitLoadUnverified` has finished and everything it re-submitted is verified or pooled.
+    fn restart(&mut self, out: &mut Out) {
+        if self.dead {
+            return;
+        }
+        out.count("restart-op");
+        if self.prev.is_none() {
+            let g = self.get(0).work;
+            self.prev = Some((0, g));
+        }
+        let stopped_here = if self.node.is_some() {
+            let pool0 = self.pool_ids();
+            if !self.stop_node(out, "restart") {
+                return;
+            }
+            Some(pool0)
+        } else {
+            None
+        };
+        let pv = self.persisted_view(out);
+        if let Some(pool0) = stopped_here {
+            self.stop_stats(out, &pv, &pool0);
+        }
+        // ---- the received set across the restart (see `oracle`)
+        let mel = self.consensus.max_epoch_length();
+        let horizon = ckb_chain::VERIF_ORPHAN_EXPIRED_EPOCH * mel;
+        let ext: HashSet<usize> = pv.ext.iter().map(|(i, _)| *i).collect();
+        let unext: Vec<usize> = pv.stored.iter().copied().filter(|i| *i != 0 && !ext.contains(i)).collect();
+        let tipn = pv.tip.map(|t| self.get(t).num).unwrap_or(0);
+        let lo = std::cmp::max(1, tipn.saturating_sub(horizon));
+        let hi = tipn + ckb_constant::sync::BLOCK_DOWNLOAD_WINDOW * 10;
+        let unext_nums: HashSet<u64> = unext.iter().map(|i| self.get(*i).num).collect();
+        let in_horizon: Vec<usize> = unext
+            .iter()
+            .copied()
+            .filter(|i| {
+                let n = self.get(*i).num;
+                n >= lo && n <= hi && ((tipn + 1)..=n).all(|x| unext_nums.contains(&x))
+            })
+            .collect();
+        let mut received: HashSet<usize> = ext.iter().copied().filter(|i| *i != 0).collect();
+        received.extend(in_horizon.iter().copied());
+        if unext.len() > in_horizon.len() {
+            out.count("restart-forgot-outside-horizon");
+        }
+        if self.delivered.iter().any(|i| !received.contains(i) && self.get(*i).kind == Kind::Valid) {
+            out.count("restart-forgot-something-valid");
+        }
+        self.delivered = received;
+        self.survivors.clear();
+        // ---- start
+        let node = Node::start(&self.dir, self.consensus.clone(), &self.cfg);
+        let t = Instant::now();
+        while node.controller().is_verifying_unverified_blocks_on_startup() {
+            if let Some(p) = node_panic() {
+                self.node = Some(node);
+                return self.hang(out, "restart", &format!("a node thread died: {p}"));
+            }
+            if t.elapsed() > quiescence_timeout() {
+                self.node = Some(node);
+                return self.hang(out, "restart", "InitLoadUnverified did not finish");
+            }
+            std::thread::sleep(Duration::from_micros(100));
+        }
+        self.node = Some(node);
+        self.restarts += 1;
+        self.restart_marks.push(self.arrival.len());
+        // fence: when the genesis delivery is answered the chain-service thread has handled every
+        // request of the scan; every pool entry is the scan's (no callback)
+        let fence = LonelyBlock { block: self.get(0).block.clone(), switch: None, verify_callback: None };
+        if !self.node().controller().verif_process_lonely_block_sync(fence) {
+            return self.hang(out, "restart", "the chain service has gone");
+        }
+        self.foreign = self.blks.iter().map(|b| b.id).collect();
+        if let Err(e) = self.wait_quiescent() {
+            return self.hang(out, "restart", &e);
+        }
+        self.foreign = self.pool_ids().into_iter().collect();
+        let v = self.read_state(out);
+        let op = format!("restart {} {}", mel, show_ids(&self.scan_order()));
+        out.op(&op, &state_line(&[], &v));
+        // ---- the start-up scan must have picked up every stored-unverified block inside the horizon:
+        //      afterwards it has an ext, or is pooled again, or was rejected (data deleted)
+        let now_ext: HashSet<usize> = v.ext.iter().map(|(i, _)| *i).collect();
+        let left: Vec<usize> = in_horizon.iter().copied().filter(|i| v.stored.contains(i) && !now_ext.contains(i) && !self.foreign.contains(i)).collect();
+        if !left.is_empty() {
+            out.oracle_fail(
+                "restart-not-requeued",
+                &format!(
+                    "after the restart the blocks {:?} (numbers {:?}) are still stored without ext and are not in the orphan pool: InitLoadUnverified did not pick them up (stopped store: tip {:?} number {tipn}; stored without ext {:?} with numbers {:?}; horizon {horizon} blocks below the tip)",
+                    left,
+                    left.iter().map(|i| self.get(*i).num).collect::<Vec<_>>(),
+                    pv.tip,
+                    unext,
+                    unext.iter().map(|i| self.get(*i).num).collect::<Vec<_>>()
+                ),
+            );
+        }
+        for _ in 0..in_horizon.len() {
+            out.count("restart-requeued");
+        }
+        if !self.foreign.is_empty() {
+            out.count("restart-repooled-orphans");
+        }
+        let moved = self.oracle(out, &v, false, "restart");
+        if let Some((_, _, true)) = moved {
+            out.count("restart-reorg-by-startup-verification");
+        }
     }
 
     /// true when the case is non-trivial by the stated rule
@@ -961,7 +1388,14 @@ impl CaseRun {
         match self.family {
             "uneven" => out.count("uneven-case"),
             "expiry" => out.count("expiry-case"),
+            "restart" => out.count("restart-case"),
             _ => {}
+        }
+        if self.restarts > 0 && self.had_reorg {
+            out.count("case-with-restart-and-reorg");
+        }
+        if self.restarts > 0 && self.had_deep_unverified {
+            out.count("case-with-restart-over-stored-unverified-more-than-6-below-tip");
         }
         if !self.dead && (self.had_reorg || self.had_tie || invalid_on_heaviest) {
             let mut h = 0xcbf29ce484222325u64;
@@ -978,6 +1412,10 @@ impl CaseRun {
             eat(u64::MAX);
             for a in &self.arrival {
                 eat(*a as u64);
+            }
+            for m in &self.restart_marks {
+                eat(u64::MAX - 1);
+                eat(*m as u64);
             }
             out.nontrivial(format!("{:016x}", h));
         }
@@ -1172,6 +1610,9 @@ fn generate(out: &mut Out, opts: &Opts, builder_base: &Path, node_base: &Path) {
     // measured: a tree costs ~0.4 s CPU to build (one RocksDB open per branch of the builder), a case
     // ~0.2 s (node start); quick = 20 trees x 3 orders = 60 cases, thorough = 100 x 6 = 600 cases (250 x 6 took 17.7 min on the loaded machine)
     let (trees, orders) = if opts.thorough() { (100 * opts.scale, 6) } else { (20 * opts.scale, 3) };
+    // debugging aid: `restartonly` as extra argument runs family `restart` alone
+    let only_restart = opts.extra.iter().any(|a| a == "restartonly");
+    let trees = if only_restart { 0 } else { trees };
     let t0 = Instant::now();
     let mut cases = 0u64;
     let (mut t_build, mut t_start, mut t_ops, mut t_stop) = (Duration::ZERO, Duration::ZERO, Duration::ZERO, Duration::ZERO);
@@ -1229,6 +1670,7 @@ fn generate(out: &mut Out, opts: &Opts, builder_base: &Path, node_base: &Path) {
     let t_gen = t0.elapsed();
     // ---- family "uneven": real difficulty adjustment, branches of different per-block work
     let (utrees, uorders) = if opts.thorough() { (40 * opts.scale, 6) } else { (10 * opts.scale, 3) };
+    let utrees = if only_restart { 0 } else { utrees };
     for tno in 0..utrees {
         let tb = Instant::now();
         let tree = gen_uneven_tree(&mut rng, &builder_base.join(format!("u{tno}")));
@@ -1259,6 +1701,7 @@ fn generate(out: &mut Out, opts: &Opts, builder_base: &Path, node_base: &Path) {
     let t_uneven = t0.elapsed() - t_gen;
     // ---- family "expiry": orphan chains held in the pool while `expire` fires
     let (etrees, eorders) = if opts.thorough() { (15 * opts.scale, 3) } else { (4 * opts.scale, 2) };
+    let etrees = if only_restart { 0 } else { etrees };
     for tno in 0..etrees {
         let tb = Instant::now();
         let tree = gen_expiry_tree(&mut rng, &builder_base.join(format!("e{tno}")));
@@ -1271,7 +1714,22 @@ fn generate(out: &mut Out, opts: &Opts, builder_base: &Path, node_base: &Path) {
         }
     }
     let t_expiry = t0.elapsed() - t_gen - t_uneven;
-    eprintln!("C01: general {:.1}s, uneven {:.1}s, expiry {:.1}s", t_gen.as_secs_f64(), t_uneven.as_secs_f64(), t_expiry.as_secs_f64());
+    // ---- family "restart": the node is stopped in the middle of a delivery and started again
+    let (rtrees, rorders) = if opts.thorough() { (40 * opts.scale, 5) } else { (9 * opts.scale, 3) };
+    for tno in 0..rtrees {
+        let tb = Instant::now();
+        let tree = gen_restart_tree(&mut rng, &builder_base.join(format!("r{tno}")));
+        t_build += tb.elapsed();
+        for ono in 0..rorders {
+            let (ops, burst_stop) = restart_ops(&mut rng, &tree);
+            let threads = rng.range(1, 3) as usize;
+            let label = format!("{} mode={} thr={} fam=restart tree={} ord={} n={}", tree.chain.label(), if burst_stop { "burststop" } else { "ser" }, threads, tno, ono, tree.blks.len() - 1);
+            run_case(out, node_base, &label, &tree.chain, threads, "restart", &tree.blks, &ops);
+            cases += 1;
+        }
+    }
+    let t_restart = t0.elapsed() - t_gen - t_uneven - t_expiry;
+    eprintln!("C01: general {:.1}s, uneven {:.1}s, expiry {:.1}s, restart {:.1}s", t_gen.as_secs_f64(), t_uneven.as_secs_f64(), t_expiry.as_secs_f64(), t_restart.as_secs_f64());
     eprintln!(
         "C01: {} cases in {:.1}s (building blocks {:.1}s, node start {:.1}s, deliveries {:.1}s, node stop {:.1}s)",
         cases,
@@ -1287,6 +1745,12 @@ enum Op {
     Deliver(usize),
     Burst(Vec<usize>),
     Expire,
+    /// `crash`: stop the node, compare the persisted state
+    Stop,
+    /// `burststop <ids>`: hand the ids over without waiting and stop the node at once
+    BurstStop(Vec<usize>),
+    /// `restart`: (stop and) start the node on the same directory
+    Restart,
 }
 
 fn run_case(out: &mut Out, node_base: &Path, label: &str, chain: &Chain, threads: usize, family: &'static str, blks: &[Blk], ops: &[Op]) {
@@ -1301,6 +1765,9 @@ fn run_case(out: &mut Out, node_base: &Path, label: &str, chain: &Chain, threads
             Op::Deliver(id) => run.deliver(out, *id),
             Op::Burst(ids) => run.burst(out, ids),
             Op::Expire => run.expire(out),
+            Op::Stop => run.stop(out),
+            Op::BurstStop(ids) => run.burst_stop(out, ids),
+            Op::Restart => run.restart(out),
         }
         if run.dead {
             break;
@@ -1609,6 +2076,218 @@ fn expiry_ops(rng: &mut Rng, t: &ExpiryTree) -> Vec<Op> {
     ops.into_iter().map(|x| if x == EXPIRE { Op::Expire } else { Op::Deliver(x) }).collect()
 }
 
+// ---- family "restart" -----------------------------------------------------------------------------
+
+/// Main chain 1..=l (permanent difficulty, short epochs: the chain spans several epochs) and 1-3
+/// competing branches, each a simple chain leaving the main chain at `fork` (a main block id, 0 =
+/// genesis), heavier (longer), lighter or exactly as heavy as the rest of the main chain; a branch may
+/// contain one invalid block. `ids[0]` of a branch is its CONNECTOR: while it is withheld the rest of
+/// the branch waits in the orphan pool (stored, no ext).
+/// Shape restriction (stated in the manifest): two siblings are never in the orphan pool together
+/// (branches are chains, the main chain is delivered in order, branches forking above main block 3
+/// have distinct fork points), so the order in which pooled blocks are released is determined by the
+/// tree — after a restart the pool entries carry no callback from which the harness could read it.
+struct RBranch {
+    fork: usize,
+    ids: Vec<usize>,
+    all_valid: bool,
+}
+
+struct RestartTree {
+    chain: Chain,
+    blks: Vec<Blk>,
+    l: usize,
+    branches: Vec<RBranch>,
+}
+
+fn gen_restart_tree(rng: &mut Rng, bdir: &Path) -> RestartTree {
+    let chain = Chain::Flat { el: rng.range(3, 6) };
+    let consensus = chain.consensus();
+    let mut builder = ChainBuilder::new(consensus.clone(), bdir);
+    builder.max_branch_stores = 6;
+    let l = rng.range(12, 22) as usize;
+    let mut blks = vec![genesis_blk(&consensus)];
+    for id in 1..=l {
+        let p = blks[id - 1].clone();
+        blks.push(build_blk(&mut builder, id, &p, Kind::Valid, id == l));
+    }
+    let mut branches: Vec<RBranch> = vec![];
+    for _ in 0..rng.range(1, 3) {
+        let mut f = if rng.chance(3, 5) { rng.range(0, 3) } else { rng.range(0, l as u64 - 2) } as usize;
+        if f > 3 && branches.iter().any(|b| b.fork == f) {
+            f = rng.range(0, 3) as usize;
+        }
+        let rest = l - f;
+        let len = match rng.below(5) {
+            0 | 1 => rest + rng.range(1, 2) as usize, // heavier than the main chain
+            2 => rest,                                 // exactly as heavy (tie)
+            _ => rng.range(2, (rest as u64 - 1).max(2)) as usize,
+        }
+        .min(26);
+        let bad = if rng.chance(1, 4) { Some((rng.below(len as u64) as usize, if rng.chance(3, 5) { Kind::Ctx } else { Kind::Nc })) } else { None };
+        let mut parent = f;
+        let mut ids = vec![];
+        for i in 0..len {
+            let id = blks.len();
+            let p = blks[parent].clone();
+            let kind = match bad {
+                Some((j, k)) if j == i => k,
+                _ => Kind::Valid,
+            };
+            blks.push(build_blk(&mut builder, id, &p, kind, i + 1 == len));
+            ids.push(id);
+            parent = id;
+        }
+        branches.push(RBranch { fork: f, ids, all_valid: bad.is_none() });
+    }
+    drop(builder);
+    let _ = std::fs::remove_dir_all(bdir);
+    RestartTree { chain, blks, l, branches }
+}
+
+/// (ops, burst-stop used)
+fn restart_ops(rng: &mut Rng, t: &RestartTree) -> (Vec<Op>, bool) {
+    let l = t.l;
+    let scramble = |rng: &mut Rng, v: &[usize]| -> Vec<usize> {
+        let mut v = v.to_vec();
+        match rng.below(3) {
+            0 => {}
+            1 => v.reverse(),
+            _ => rng.shuffle(&mut v),
+        }
+        v
+    };
+    let burst_stop = rng.chance(2, 5);
+    // main blocks received before the stop: 1..=a (the tip is at least 9, so that blocks of a branch
+    // forking at 0..3 sit more than EXPIRED_EPOCH = 6 numbers below it)
+    let a = rng.range(9, l as u64 - if burst_stop { 1 } else { 0 }) as usize;
+    // in burst mode the last blocks of 1..=a are part of the burst
+    let a0 = if burst_stop { a - rng.range(1, (a as u64 - 4).min(8)) as usize } else { a };
+    #[derive(Clone, Copy, PartialEq)]
+    enum Plan {
+        /// before the stop, WITHOUT its connector: pooled orphans
+        Orphan,
+        /// before the stop, completely and in order (its fork point is connected by then)
+        Full,
+        /// after the restart
+        Later,
+    }
+    let mut plans: Vec<Plan> = t
+        .branches
+        .iter()
+        .map(|b| {
+            // `Full` inside a burst must not contain a block that fails verification: a failure that
+            // is decided while later blocks of the burst arrive makes the persisted state depend on the
+            // thread timing (child rejected on arrival / child queued and still stored at the stop)
+            let full_ok = b.fork <= a0 && (!burst_stop || b.all_valid);
+            match rng.below(10) {
+                0..=4 if b.ids.len() >= 2 => Plan::Orphan,
+                5..=7 if full_ok => Plan::Full,
+                _ => Plan::Later,
+            }
+        })
+        .collect();
+    if !burst_stop && !plans.contains(&Plan::Orphan) {
+        // a serialised stop leaves stored-unverified blocks only in the orphan pool
+        if let Some(i) = (0..plans.len()).find(|i| t.branches[*i].ids.len() >= 2) {
+            plans[i] = Plan::Orphan;
+        }
+    }
+    let orphans: Vec<Vec<usize>> = (0..plans.len()).filter(|i| plans[*i] == Plan::Orphan).map(|i| scramble(rng, &t.branches[i].ids[1..])).collect();
+    let fulls: Vec<Vec<usize>> = (0..plans.len()).filter(|i| plans[*i] == Plan::Full).map(|i| t.branches[i].ids.clone()).collect();
+    let merge_all = |rng: &mut Rng, parts: &[Vec<usize>]| -> Vec<usize> {
+        let mut acc: Vec<usize> = vec![];
+        for p in parts {
+            acc = merge_keep_order(rng, &acc, p);
+        }
+        acc
+    };
+    let mut ops: Vec<Op> = vec![];
+    let mut before: Vec<usize> = vec![];
+    // ---- phase A (serialised): main 1..=a0, the orphans merged in; complete branches afterwards
+    let main_a: Vec<usize> = (1..=a0).collect();
+    let (orph_ser, orph_burst): (Vec<Vec<usize>>, Vec<Vec<usize>>) = if burst_stop { orphans.into_iter().partition(|_| rng.chance(1, 2)) } else { (orphans, vec![]) };
+    let orph_ser_merged = merge_all(rng, &orph_ser);
+    let mut phase_a = merge_keep_order(rng, &main_a, &orph_ser_merged);
+    if !burst_stop {
+        phase_a.extend(merge_all(rng, &fulls));
+    }
+    before.extend(&phase_a);
+    ops.extend(phase_a.into_iter().map(Op::Deliver));
+    if burst_stop {
+        // ---- the burst: the rest of main 1..=a, complete branches (queued behind each other), more
+        //      orphans; then the node stops at once
+        let main_b: Vec<usize> = (a0 + 1..=a).collect();
+        let mut parts = vec![main_b];
+        parts.extend(fulls);
+        parts.extend(orph_burst);
+        let ids = merge_all(rng, &parts);
+        before.extend(&ids);
+        ops.push(Op::BurstStop(ids));
+    } else if rng.chance(1, 2) {
+        ops.push(Op::Stop);
+    }
+    ops.push(Op::Restart);
+    // ---- phase B: connectors (3 of 4), the rest of the main chain in order, the branches not seen yet
+    //      (complete, in order, after the main chain reached their fork point), re-deliveries of
+    //      none / some / all blocks the node already had
+    let mut later: Vec<usize> = vec![];
+    let mut withheld: Vec<usize> = vec![];
+    for (i, b) in t.branches.iter().enumerate() {
+        if plans[i] == Plan::Orphan {
+            if rng.chance(3, 4) {
+                later.push(b.ids[0]);
+            } else {
+                withheld.push(b.ids[0]);
+            }
+        }
+    }
+    rng.shuffle(&mut later);
+    let main_rest: Vec<usize> = (a + 1..=l).collect();
+    let mut phase_b = merge_keep_order(rng, &main_rest, &later);
+    for (i, b) in t.branches.iter().enumerate() {
+        if plans[i] == Plan::Later {
+            if b.fork <= a && rng.chance(1, 2) {
+                phase_b = merge_keep_order(rng, &phase_b, &b.ids);
+            } else {
+                phase_b.extend(&b.ids);
+            }
+        }
+    }
+    let final_burst = rng.chance(1, 4);
+    if !final_burst {
+        let again: Vec<usize> = match rng.below(4) {
+            0 | 1 => vec![],
+            2 => before.iter().copied().filter(|_| rng.chance(1, 4)).collect(),
+            _ => before.clone(),
+        };
+        for id in again {
+            let pos = rng.range(0, phase_b.len() as u64) as usize;
+            phase_b.insert(pos, id);
+        }
+    }
+    if rng.chance(1, 2) {
+        phase_b.extend(&withheld);
+    }
+    if final_burst {
+        if !phase_b.is_empty() {
+            ops.push(Op::Burst(phase_b));
+        }
+    } else {
+        let second = if rng.chance(1, 3) && !phase_b.is_empty() { Some(rng.range(0, phase_b.len() as u64) as usize) } else { None };
+        for (i, id) in phase_b.into_iter().enumerate() {
+            if second == Some(i) {
+                if rng.chance(1, 2) {
+                    ops.push(Op::Stop);
+                }
+                ops.push(Op::Restart);
+            }
+            ops.push(Op::Deliver(id));
+        }
+    }
+    (ops, burst_stop)
+}
+
 // ------------------------------------------------------------------------------------------------
 // replay
 // ------------------------------------------------------------------------------------------------
@@ -1673,6 +2352,8 @@ fn replay(out: &mut Out, ops: &[String], builder_base: &Path, node_base: &Path) 
                     "uneven"
                 } else if t[2..].contains(&"fam=expiry") {
                     "expiry"
+                } else if t[2..].contains(&"fam=restart") {
+                    "restart"
                 } else {
                     "gen"
                 };
@@ -1716,6 +2397,22 @@ fn replay(out: &mut Out, ops: &[String], builder_base: &Path, node_base: &Path) 
             "expire" => {
                 let rc = cur.as_mut().expect("expire before case");
                 rc.run.expire(out);
+            }
+            "crash" => {
+                let rc = cur.as_mut().expect("crash before case");
+                rc.run.stop(out);
+            }
+            "burststop" => {
+                // the observed state (third token) is recomputed by this run
+                let rc = cur.as_mut().expect("burststop before case");
+                let ids = parse_ids(t[1]);
+                assert!(!ids.is_empty(), "empty burststop");
+                rc.run.burst_stop(out, &ids);
+            }
+            "restart" => {
+                // max_epoch_length and the scan order are recomputed by this run
+                let rc = cur.as_mut().expect("restart before case");
+                rc.run.restart(out);
             }
             _ => panic!("bad replay op {line}"),
         }
